@@ -77,12 +77,55 @@ def nontrivial(rest, model_line):
 def correspondence(ctx):
     drv = ctx.need_model()
     cases = gen_cases(ctx.seed, ctx.tier)
+    if drv:
+        published_vectors(ctx, drv)
     builds = [("default", "debug")]
     if ctx.tier == "thorough":
         builds += [("default", "release")]
     for flavour, profile in builds:
         b = ctx.need_harness(flavour, profile)
         ctx.correspond("reference_impl", cases, drv, b, profile=profile, build=flavour, nontrivial=nontrivial)
+
+
+def published_vectors(ctx, drv):
+    """every published vector of test_vectors/test_vectors.json (as it is in the working tree NOW) against the extracted
+    model of the reference implementation (= the specification, C15_ref_refines): names the failing vector when the
+    in-kernel theorem of Proofs/TV*.v no longer checks"""
+    import json
+    import os
+    import verif
+    try:
+        js = json.load(open(os.path.join(verif.REPO, "test_vectors", "test_vectors.json")))
+    except Exception as e:            # unreadable JSON: the translator has already reported the anchor
+        ctx.broken.append("test_vectors.json unreadable: %s" % e)
+        return
+    key, context = js["key"].encode(), js["context_string"].encode()
+    lines, meta = [], {}
+    for ci, c in enumerate(js["cases"]):
+        n = c["input_len"]
+        for field, mode in (("hash", "hash"), ("keyed_hash", "keyed=" + hexspec(key)), ("derive_key", "derive=" + hexspec(context))):
+            cid = "v%d_%s" % (ci, field)
+            olen = len(c[field]) // 2
+            lines.append("%s ref %s %d paint/0/%d" % (cid, mode, olen, n))
+            meta[cid] = (n, field, c[field])
+    res = verif.run_model(drv, lines)
+    nfail = 0
+    for line in lines:
+        cid, rest = line.split(" ", 1)
+        n, field, pub = meta[cid]
+        got = res.get(cid, "MISSING").split()
+        ctx.evaluations += 1
+        want = "x" + pub
+        if got[:1] != [want] and got[:1] != [pub]:
+            nfail += 1
+            g = got[0] if got else ""
+            g = g[1:] if g.startswith("x") else g
+            pos = next((i // 2 for i in range(0, min(len(g), len(pub)), 2) if g[i:i + 2] != pub[i:i + 2]), None)
+            ctx.failures.append({"correspondence": "published test vectors vs specification",
+                                 "case": "test_vectors.json input_len=%d field=%s (first differing output byte: %s); model case: %s" % (n, field, pos, rest),
+                                 "model": g[:300], "impl": "published: " + pub[:300], "build": "test_vectors.json"})
+    ctx.stats["published-vectors"] = {"cases": len(lines), "disagreements": nfail}
+    ctx.log("published vectors vs model: %d values, %d disagreements" % (len(lines), nfail))
 
 
 def classify(f):
